@@ -35,9 +35,10 @@ EXTENDS AcnSim
 StartStep(R, mr) ==
     /\ pc = "Setup" /\ R \in RecompSets /\ mr \in MRSet
     /\ Len(sess) > 0 \/ R # {}
+    /\ ExtraOK(R)
     /\ recomp' = R /\ MR' = mr
     /\ queue' = {[kind |-> "Plugin", ts |-> sess[i].arr, id |-> i] : i \in 1..Len(sess)}
-                \cup {[kind |-> "Recompute", ts |-> r, id |-> 100 + r] : r \in R}
+                \cup ExtraEvents(R)
     /\ pc' = "SIdle"
     /\ hist' = Log([a |-> "start", sess |-> sess, recomp |-> R, volt |-> Volt, T |-> T,
                     mr |-> mr, ns |-> NS, vl |-> VL, menu |-> Menu, kindtab |-> KindTab,
